@@ -155,7 +155,7 @@ theorem stepBlock_sound (e : Env) (m : Memory) (idx : Nat) (b : BlockOp) (i : Op
 /-- one-step soundness, DMA -/
 theorem stepDma_sound (e : Env) (m : Memory) (idx : Nat) (d : DmaOp) (i : DmaInfo) (h : m.Inv)
     (herr : (stepDma e m idx d i).1 = []) (hr : d.src.region ≠ e.constRegion) :
-    ∀ byte, d.src.addr ≤ byte → byte < d.src.addr + d.src.len →
+    ∀ byte, d.src.addr ≤ byte → byte < d.src.addr + i.validLen d.src.len →
       m.get d.src.region byte = some (i.srcTid, i.srcDelta) :=
   Mem.stepDma_sound e h idx d i herr hr
 
@@ -207,15 +207,22 @@ def exInfo : OpInfo :=
 
 /-- block op reads tensor 7 from region 1 and writes tensor 8 to region 2; the DMA then reads tensor 8 -/
 example : execTagged exEnv exInit [.block exBlock, .dma ⟨⟨2, 0, 64⟩, ⟨1, 200, 64⟩, 0⟩]
-    [.block exInfo, .dma ⟨8, 0, 8, -200⟩] = [] := by decide
+    [.block exInfo, .dma ⟨8, 0, 8, -200, 0⟩] = [] := by decide
 /-- the same block op expecting the rows one further down (a wrapped rolling buffer) is rejected -/
 example : (execTagged exEnv exInit [.block exBlock] [.block { exInfo with ifm := ⟨7, 1, 0, 0, [0, 0, 0, 0]⟩ }]).length = 1 := by
   decide
 /-- the DMA executed *before* its producer is rejected -/
 example : (execTagged exEnv exInit [.dma ⟨⟨2, 0, 64⟩, ⟨1, 200, 64⟩, 0⟩, .block exBlock]
-    [.dma ⟨8, 0, 8, -200⟩, .block exInfo]).length = 1 := by decide
+    [.dma ⟨8, 0, 8, -200, 0⟩, .block exInfo]).length = 1 := by decide
 example : (stepBlock exEnv exInit 0 exBlock exInfo).1 = [] ∧ exBlock.ifm.region ≠ exEnv.constRegion := by decide
-example : (stepDma exEnv exInit 0 ⟨⟨1, 16, 32⟩, ⟨2, 0, 32⟩, 0⟩ ⟨7, 0, 9, 0⟩).1 = [] := by decide
+example : (stepDma exEnv exInit 0 ⟨⟨1, 16, 32⟩, ⟨2, 0, 32⟩, 0⟩ ⟨7, 0, 9, 0, 0⟩).1 = [] := by decide
+
+/-- a feature-map DMA rounded up to 16 bytes: only the 3 valid bytes are checked and defined; the padding it
+    drags along is tagged as junk, so a later reader of those bytes is rejected -/
+example : (stepDma exEnv (IMap.write [] 64 67 4 (-64) |> fun im => [(2, im)]) 0 ⟨⟨2, 64, 16⟩, ⟨1, 784, 16⟩, 0⟩ ⟨4, -64, 5, -784, 3⟩).1 = [] := by
+  decide
+example : (stepDma exEnv (IMap.write [] 64 67 4 (-64) |> fun im => [(2, im)]) 0 ⟨⟨2, 64, 16⟩, ⟨1, 784, 16⟩, 0⟩ ⟨4, -64, 5, -784, 0⟩).1.length = 1 := by
+  decide
 
 /-! ### per-tile base offsets (the RESIZE_BILINEAR edge-replication pattern)
 
